@@ -1,8 +1,13 @@
 package rtpconn
 
 import (
+	"fmt"
+	"slices"
 	"testing"
 	"time"
+
+	"github.com/jech/galene/group"
+	"github.com/jech/galene/token"
 )
 
 // D1 / C02:picture-id-direction: VP8 L1T2, the tid-1 frames are withheld;
@@ -40,5 +45,110 @@ func TestVerif_C02_Regress_PictureIdDirection(t *testing.T) {
 		if len(got) >= 12 {
 			t.Fatalf("nothing was withheld: %v", got)
 		}
+	}
+}
+
+// ---- signalling-level regressions (sigsim)
+
+func regressRoom(t *testing.T, desc map[string]any) (string, *sim) {
+	simSetup()
+	simCase++
+	name := fmt.Sprintf("reg%d-%d", simCase, time.Now().UnixNano()%100000)
+	writeGroupFile(name, desc)
+	return name, newSim(3, func(n int) int { return 0 })
+}
+
+var regUsers = map[string]any{
+	"op":   map[string]any{"password": "p", "permissions": "op"},
+	"pres": map[string]any{"password": "p", "permissions": "present"},
+}
+
+// C11:refused-join-keeps-permissions (D2): a join refused for capacity leaves the client with no permission,
+// and an offer from it is refused instead of crashing the server.
+func TestVerif_C11_Regress_RefusedJoinKeepsPermissions(t *testing.T) {
+	g, s := regressRoom(t, map[string]any{"users": regUsers, "max-clients": 1})
+	defer s.cleanup()
+	a, b := s.cs[0], s.cs[1]
+	s.send(a, clientMessage{Type: "join", Kind: "join", Group: g, Username: sp("pres"), Password: "p"})
+	s.pump()
+	s.send(b, clientMessage{Type: "join", Kind: "join", Group: g, Username: sp("pres"), Password: "p"})
+	s.pump()
+	if b.c.group != nil {
+		t.Fatalf("second presenter admitted to a group with max-clients 1")
+	}
+	if len(b.c.permissions) != 0 {
+		t.Fatalf("client whose join was refused holds %v", b.c.permissions)
+	}
+	if err := s.send(b, clientMessage{Type: "offer", Id: "u1", SDP: "garbage"}); err != nil {
+		t.Fatalf("offer closed the connection: %v", err)
+	}
+	b.drain()
+	if !slices.Contains(errorTexts(b.inbox), "not authorised") {
+		t.Fatalf("offer by a non-member was not refused: %v", b.inbox)
+	}
+}
+
+// C08:shared-role-permissions (D11): revoking a right of one presenter must not change what the next presenter is granted.
+func TestVerif_C08_Regress_SharedRolePermissions(t *testing.T) {
+	g, s := regressRoom(t, map[string]any{"users": regUsers})
+	defer s.cleanup()
+	op, p1, p2 := s.cs[0], s.cs[1], s.cs[2]
+	s.send(op, clientMessage{Type: "join", Kind: "join", Group: g, Username: sp("op"), Password: "p"})
+	s.send(p1, clientMessage{Type: "join", Kind: "join", Group: g, Username: sp("pres"), Password: "p"})
+	s.pump()
+	s.send(op, clientMessage{Type: "useraction", Kind: "unpresent", Dest: p1.id})
+	s.pump()
+	s.send(p2, clientMessage{Type: "join", Kind: "join", Group: g, Username: sp("pres"), Password: "p"})
+	s.pump()
+	if sortedPerms(p2.c.permissions) != "message present" {
+		t.Fatalf("a presenter logging in after another one was unpresent'ed is granted %v", p2.c.permissions)
+	}
+}
+
+// C11:edittoken-crosses-groups (D12)
+func TestVerif_C11_Regress_EditTokenCrossesGroups(t *testing.T) {
+	g, s := regressRoom(t, map[string]any{"users": regUsers})
+	defer s.cleanup()
+	exp := time.Now().Add(time.Hour).UTC().Truncate(time.Second)
+	name := fmt.Sprintf("othertok%d", simCase)
+	if _, err := token.Update(&token.Stateful{Token: name, Group: g + "-other", Permissions: []string{"present"}, Expires: &exp}, ""); err != nil {
+		t.Fatal(err)
+	}
+	op := s.cs[0]
+	s.send(op, clientMessage{Type: "join", Kind: "join", Group: g, Username: sp("op"), Password: "p"})
+	s.pump()
+	s.send(op, clientMessage{Type: "groupaction", Kind: "edittoken", Value: map[string]any{"token": name, "expires": "2020-01-01T00:00:00Z"}})
+	s.pump()
+	tk, etag, err := token.Get(name)
+	if err != nil || !tk.Expires.Equal(exp) {
+		t.Fatalf("an operator of %s changed a token of another group: %+v %v", g, tk, err)
+	}
+	token.Delete(name, etag)
+}
+
+// C12:notification-after-leave (D5): a member sends setdata and leaves before the notification is handled.
+func TestVerif_C12_Regress_NotificationAfterLeave(t *testing.T) {
+	g, s := regressRoom(t, map[string]any{"users": regUsers})
+	defer s.cleanup()
+	a := s.cs[0]
+	s.send(a, clientMessage{Type: "join", Kind: "join", Group: g, Username: sp("pres"), Password: "p"})
+	s.pump()
+	s.send(a, clientMessage{Type: "useraction", Kind: "setdata", Dest: a.id, Value: map[string]any{"k": "v"}})
+	s.send(a, clientMessage{Type: "join", Kind: "leave", Group: g})
+	s.pump() // would dereference the nil group
+}
+
+// C12:redirect-ghost-member: joining a redirected group must not make the client a member, and an offer afterwards must not crash.
+func TestVerif_C12_Regress_RedirectGhostMember(t *testing.T) {
+	g, s := regressRoom(t, map[string]any{"users": regUsers, "redirect": "https://elsewhere.example.org/group/x/"})
+	defer s.cleanup()
+	a := s.cs[0]
+	s.send(a, clientMessage{Type: "join", Kind: "join", Group: g, Username: sp("pres"), Password: "p"})
+	s.pump()
+	if gg := group.Get(g); gg != nil && len(gg.GetClients(nil)) != 0 {
+		t.Fatalf("a client redirected away from %s is listed as a member of it", g)
+	}
+	if err := s.send(a, clientMessage{Type: "offer", Id: "u1", SDP: "garbage"}); err != nil {
+		t.Fatalf("offer closed the connection: %v", err)
 	}
 }
